@@ -55,7 +55,15 @@ namespace smt
             c_bounds[lb_index(slack)] = {lb(l), TRUE_lit}; // we set the lower bound at the lower bound of the given linear expression..
             c_bounds[ub_index(slack)] = {ub(l), TRUE_lit}; // we set the upper bound at the upper bound of the given linear expression..
             vals[slack] = value(l);                        // we set the initial value of the new slack variable at the value of the given linear expression..
-            new_row(slack, l);                             // we add a new row into the tableau..
+            // we substitute the basic variables, if any, so as to keep the tableau in canonical form..
+            lin expr = l;
+            for (const auto &[v, c] : l.vars)
+                if (const auto at_v = tableau.find(v); at_v != tableau.cend())
+                {
+                    expr.vars.erase(v);
+                    expr += at_v->second->l * c;
+                }
+            new_row(slack, expr); // we add a new row into the tableau..
             return slack;
         }
     }
